@@ -92,7 +92,12 @@ def extract_params():
         c["RegisterOrder"] = "fallback_then_sigaction" if i_f < i_sa else "sigaction_then_fallback"
         i_unl = names.index(("unlock", "F.mtx")) if ("unlock", "F.mtx") in names else len(names)
         barrier = [n for n in names[i_f + 1:i_unl] if n[0] == "load" and n[1].startswith("F.lock")]
-        c["FallbackGrace"] = len(barrier) >= 2
+        if len(barrier) >= 2:
+            c["FallbackGrace"] = True
+        elif len(barrier) == 0:
+            c["FallbackGrace"] = False
+        else:
+            stale.append("first registration: unmodelled barrier shape after the fallback store")
         if ("swap", "D.data") not in names or names.index(("swap", "D.data")) < max(i_sa, i_f):
             stale.append("first registration: the slot is published before the fallback / "
                          "sigaction steps")
